@@ -1,7 +1,7 @@
 (* C08 - MapSpec parsing, printing, shapes and index maps are mutually consistent.
    Only statements here; every proof is `exact <lemma>` into Proofs/. *)
 From Verif Require Import Base.Prelude Base.Index Model.MapSpec Model.MapSpecSpec
-  Proofs.IndexFacts Proofs.MapSpecFacts Proofs.MapSpecParse Proofs.MapSpecShape.
+  Proofs.IndexFacts Proofs.MapSpecFacts Proofs.MapSpecParse Proofs.MapSpecShape Corr.Run_C08 Proofs.C08Corr.
 
 (* over linear indices 0..N-1, output_key visits every output position exactly once in row-major order
    (all_indices is itertools.product of the ranges; it has no duplicates and length prod sh) *)
@@ -154,3 +154,21 @@ Example C08_example_spaced :
   /\ er_side L' = er_side L /\ er_side R' = er_side R
   /\ pr_spaced (Dots (s " ") []) R' = s " ...->q[i,j ]  ".
 Proof. exact parse_spaced_instance. Qed.
+
+(* CAPSTONE: for EVERY correspondence case (parse / build + round trip / shape / all keys / rename / add_axes / direct
+   index calls / translator obligations) the observation computed by the model satisfies the executable statement
+   `spec_ok` that the harness applies to the implementation's observations.  Together with corr_bad = 0 (the
+   implementation's observation equals the model's on every generated case) this is what makes a green run mean
+   "the implementation satisfies the statement on the generated cases AND the model satisfies it on all cases".
+   No guard is needed: on cases outside the property's quantifier (ill-formed base spec, duplicate names, zero
+   dimensions, wrong rank) spec_ok demands nothing or demands an error, and the model raises one. *)
+Theorem C08_model_meets_spec : forall c, Run_C08.spec_ok c (Run_C08.run c) = true.
+Proof. exact model_meets_spec. Qed.
+Print Assumptions C08_model_meets_spec.
+
+(* the two rank checks (output_key: number of distinct input indices; input_keys: number of external indices) agree on
+   well-formed specs with distinct output indices *)
+Theorem C08_rank_checks_agree : forall m,
+  wf_decl m = true -> NoDup (output_indices m) -> length (external_indices m) = n_input_indices m.
+Proof. exact ext_len_input_indices. Qed.
+Print Assumptions C08_rank_checks_agree.
